@@ -74,3 +74,32 @@ int cmp16_narrowed(const uint16_t *dest, size_t dlen, const uint16_t *src, size_
     for (i = 0; i < slen && i < dlen; i++) { const int16_t d = dest[i] - src[i]; if (d) { *diff = d; break; } }
     return 0;
 }
+
+/* ---- 'nothing found' must differ from every real answer */
+int last_flag_good(const char *dest, unsigned long dmax, const char *src, unsigned long *resultp) {
+    const char *rp = dest; int found = 0;
+    *resultp = 0;
+    while (dmax && *dest && *src) { if (*dest != *src) { found = 1; *resultp = dest - rp; } dest++; src++; dmax--; }
+    return found ? 0 : 408;
+}
+int last_ptr_sentinel(const char *dest, unsigned long dmax, const char *src, unsigned long *resultp) {
+    const char *rp, *lastp; rp = lastp = dest;
+    *resultp = 0;
+    while (dmax && *dest && *src) { if (*dest != *src) lastp = dest; dest++; src++; dmax--; }
+    if (lastp == rp) return 408;
+    *resultp = lastp - rp;
+    return 0;
+}
+int last_idx_sentinel(const char *dest, unsigned long dmax, char c, unsigned long *resultp) {
+    unsigned long i, last = 0;
+    for (i = 0; i < dmax && dest[i]; i++) if (dest[i] == c) last = i;
+    if (last == 0) return 409;
+    *resultp = last;
+    return 0;
+}
+int last_null_good(const char *dest, unsigned long dmax, char c, const char **lastp) {
+    const char *l = 0;
+    while (dmax && *dest) { if (*dest == c) l = dest; dest++; dmax--; }
+    *lastp = l;
+    return l ? 0 : 409;
+}
